@@ -30,6 +30,13 @@ func TestC09NamedTypes(t *testing.T) {
 			tag := fmt.Sprintf("e%d", i)
 			p, classes := c.Build(tag)
 			f := filters[rapid.IntRange(0, 1).Draw(t, fmt.Sprintf("filter%d", i))]
+			// the filter node has a life between events: Reopen calls, and an event that is rejected (a bare string payload)
+			switch rapid.IntRange(0, 5).Draw(t, fmt.Sprintf("between%d", i)) {
+			case 0:
+				_ = f.Reopen()
+			case 1:
+				_, _ = f.Process(context.Background(), &eventlogger.Event{Type: "t", Payload: "a bare string payload is rejected"})
+			}
 			out, err := f.Process(context.Background(), &eventlogger.Event{Type: "t", Payload: p})
 			if err != nil || out == nil {
 				t.Fatalf("VIOLATION C09: Process failed on a well-formed payload of %s: %v\ncase: order=%v", c.Name, err, order)
